@@ -124,6 +124,9 @@ pub enum Case {
     Deep(Deep),
     Elixir(EU),
     ElixirWrap(EU, Shape, Vec<u32>),
+    /// 128-bit integers as (high, low) halves: the term format of this library may refuse them, but must not alter them
+    I128(i64, u64),
+    U128(u64, u64),
 }
 
 /// `same`: equality that also distinguishes float bit patterns (via the Debug rendering,
@@ -149,8 +152,18 @@ fn trip<T: Serialize + DeserializeOwned + PartialEq + Debug>(v: &T, debug_exact:
     Ok(())
 }
 
+/// round trip, or a refusal by both serialisers ("reported as an error, never silently altered")
+fn trip_or_refuse<T: Serialize + DeserializeOwned + PartialEq + Debug>(v: &T) -> Result<(), (String, String)> {
+    match (to_term(v), to_bytes(v)) {
+        (Err(_), Err(_)) => Ok(()),
+        _ => trip(v, true),
+    }
+}
+
 pub fn oracle(c: &Case) -> Verdict {
     let r = match c {
+        Case::I128(h, l) => trip_or_refuse(&(((*h as i128) << 64) | *l as i128)),
+        Case::U128(h, l) => trip_or_refuse(&(((*h as u128) << 64) | *l as u128)),
         Case::I8(v) => trip(v, true),
         Case::I16(v) => trip(v, true),
         Case::I32(v) => trip(v, true),
@@ -216,6 +229,7 @@ pub fn oracle(c: &Case) -> Verdict {
             let kind: &'static str = match c {
                 Case::I8(_) | Case::I16(_) | Case::I32(_) | Case::U8(_) | Case::U16(_) => "int:narrow",
                 Case::I64(_) | Case::U32(_) | Case::U64(_) => "int:wide",
+                Case::I128(..) | Case::U128(..) => "int:128-bit (round trip or refusal)",
                 Case::F32(_) | Case::F64(_) => "float",
                 Case::Bool(_) | Case::Unit(_) | Case::UnitStruct(_) => "unit-like",
                 Case::Char(_) | Case::Str(_) => "text",
@@ -356,6 +370,8 @@ fn strategy() -> impl Strategy<Value = Case> {
             any::<u16>().prop_map(Case::U16),
             s_u32().prop_map(Case::U32),
             s_u64().prop_map(Case::U64),
+            (prop_oneof![Just(0i64), Just(-1), Just(1), Just(i64::MAX), Just(i64::MIN), any::<i64>()], s_u64()).prop_map(|(h, l)| Case::I128(h, l)),
+            (prop_oneof![Just(0u64), Just(1), Just(u64::MAX), any::<u64>()], s_u64()).prop_map(|(h, l)| Case::U128(h, l)),
             s_f32().prop_map(Case::F32),
             s_f64().prop_map(Case::F64),
         ],
